@@ -27,8 +27,8 @@ def gs_reference(ns, r, p, g, cur, perm, bsz, nb):
     return new
 
 # ----------------------------------------------------------------------------------------------------------------- C02
-def c02():
-    R = Report("c02_runtime", "C02", "random tabular MDPs (N<9, A,E<=3, 1- and 2-component states, scalar and (1,)-array probabilities) x batch sizes {1,3,N+3}(+{2,N}); distinct = (sizes, batch size, representation)")
+def c02_report(): return Report("c02_runtime", "C02", "random tabular MDPs (N<9, A,E<=3, 1- and 2-component states, scalar and (1,)-array probabilities) x batch sizes {1,3,N+3}(+{2,N}); distinct = (sizes, batch size, representation)")
+def c02(R):
     for t, N, A, E, ns, r, p in mdps(8 if TH else 4):
         v0 = rng.normal(0, 5, N); g = float(rng.choice([0.9, 0.5, 1.0]))
         for bs in batch_sizes(N):
@@ -72,8 +72,8 @@ def make(kind, prob, g, eps, bs, test="span", P=None):
     if kind == "rvi": return RVI(prob, epsilon=eps, verbose=0, max_batch_size=bs)
     if kind == "pvi": return PVI(prob, period=P, gamma=g, epsilon=eps, verbose=0, max_batch_size=bs, clear_value_history_on_convergence=False)
 
-def c08():
-    R = Report("c08_runtime", "C08", "random tabular MDPs x {VI span, VI max_diff, semi-async fixed order, RVI, periodic (gamma=1 and <1)} x budgets k and splits k1+k2; reference iteration in NumPy; distinct = (solver, sizes, budget)")
+def c08_report(): return Report("c08_runtime", "C08", "random tabular MDPs x {VI span, VI max_diff, semi-async fixed order, RVI, periodic (gamma=1 and <1)} x budgets k and splits k1+k2; reference iteration in NumPy; distinct = (solver, sizes, budget)")
+def c08(R):
     for t, N, A, E, ns, r, p in mdps(5 if TH else 3, unichain=True):
         v0 = rng.normal(0, 3, N)
         for kind, g, test, P in [("vi", 0.9, "span", None), ("vi", 0.8, "max_diff", None), ("sa", 0.9, "max_diff", None), ("sa", 0.85, "span", None), ("rvi", 1.0, "span", None), ("pvi", 1.0, "span", 2), ("pvi", 0.9, "span", 3)]:
@@ -94,8 +94,8 @@ def c08():
     return R
 
 # ----------------------------------------------------------------------------------------------------------------- C01
-def c01():
-    R = Report("c01_runtime", "C01", "random tabular MDPs x {VI span, VI max_diff, PI span, PI max_diff, semi-async max_diff (fixed + shuffled)}; exact policy evaluation by linear solve; distinct = (solver, sizes)")
+def c01_report(): return Report("c01_runtime", "C01", "random tabular MDPs x {VI span, VI max_diff, PI span, PI max_diff, semi-async max_diff (fixed + shuffled)}; exact policy evaluation by linear solve; distinct = (solver, sizes)")
+def c01(R):
     for t, N, A, E, ns, r, p in mdps(6 if TH else 3):
         g = float(rng.choice([0.9, 0.6, 0.95])); eps = float(rng.choice([1e-2, 1e-3])); v0 = rng.normal(0, 5, N); vstar = optimal_values(ns, r, p, g)
         for kind, test in [("vi", "span"), ("vi", "max_diff"), ("pi", "span"), ("pi", "max_diff"), ("sa", "max_diff"), ("sa_shuffle", "max_diff")]:
@@ -118,8 +118,8 @@ def c01():
     return R
 
 # ----------------------------------------------------------------------------------------------------------------- C04
-def c04():
-    R = Report("c04_runtime", "C04", "random unichain aperiodic tabular MDPs (every state-action reaches state 0, which can stay) with non-zero initial values; optimal gain by LP, policy gain by stationary distribution")
+def c04_report(): return Report("c04_runtime", "C04", "random unichain aperiodic tabular MDPs (every state-action reaches state 0, which can stay) with non-zero initial values; optimal gain by LP, policy gain by stationary distribution")
+def c04(R):
     for t, N, A, E, ns, r, p in mdps(8 if TH else 4, unichain=True):
         if E < 2: ns, r, p = rand_mdp(rng, N, A, 2, unichain=True); E = 2
         eps = float(rng.choice([1e-2, 1e-4, 0.5, 5.0])); v0 = rng.normal(0, 5, N) if t % 2 else np.full(N, 5.0); bs = int(rng.choice(batch_sizes(N)))
@@ -135,8 +135,8 @@ def c04():
     return R
 
 # ----------------------------------------------------------------------------------------------------------------- C05
-def c05():
-    R = Report("c05_runtime", "C05", "random tabular MDPs x random policies (2-component action vectors) x batch sizes; exact policy values by linear solve")
+def c05_report(): return Report("c05_runtime", "C05", "random tabular MDPs x random policies (2-component action vectors) x batch sizes; exact policy values by linear solve")
+def c05(R):
     for t, N, A, E, ns, r, p in mdps(6 if TH else 3):
         g = float(rng.choice([0.9, 0.7])); eps = 1e-6; v0 = rng.normal(0, 5, N); bs = int(rng.choice(batch_sizes(N)))
         pol = np.stack([rng.integers(0, A, N), np.zeros(N, dtype=int)], 1); pol[:, 1] = pol[:, 0] % 2
@@ -169,8 +169,8 @@ def c05():
     return R
 
 # ----------------------------------------------------------------------------------------------------------------- C06
-def c06():
-    R = Report("c06_runtime", "C06", "random tabular MDPs x batch sizes x {fixed, shuffled} x seeds; block Gauss-Seidel reference driven by the permutation recomputed from the seed (split once per sweep)")
+def c06_report(): return Report("c06_runtime", "C06", "random tabular MDPs x batch sizes x {fixed, shuffled} x seeds; block Gauss-Seidel reference driven by the permutation recomputed from the seed (split once per sweep)")
+def c06(R):
     for t, N, A, E, ns, r, p in mdps(6 if TH else 3, lo=3, hi=11):
         g = 0.9; v0 = rng.normal(0, 5, N)
         for bs in batch_sizes(N):
@@ -197,8 +197,8 @@ def c06():
     return R
 
 # ----------------------------------------------------------------------------------------------------------------- C07
-def c07():
-    R = Report("c07_runtime", "C07", "random tabular MDPs x periods 1..4 x gamma in {1, <1}; reference VI iterates and documented measure; periodic chains for the gain bracket")
+def c07_report(): return Report("c07_runtime", "C07", "random tabular MDPs x periods 1..4 x gamma in {1, <1}; reference VI iterates and documented measure; periodic chains for the gain bracket")
+def c07(R):
     for t, N, A, E, ns, r, p in mdps(6 if TH else 3, unichain=True):
         v0 = rng.normal(0, 3, N)
         for P, g in [(1, 0.9), (2, 0.9), (3, 1.0), (4, 0.95), (2, 1.0)]:
@@ -222,8 +222,8 @@ def c07():
     return R
 
 # ----------------------------------------------------------------------------------------------------------------- C17
-def c17():
-    R = Report("c17_runtime", "C17", "random tabular MDPs (several events to the same successor) x scalar / (1,)-array probabilities; matrices accumulated independently; perturbed rows for the error path")
+def c17_report(): return Report("c17_runtime", "C17", "random tabular MDPs (several events to the same successor) x scalar / (1,)-array probabilities; matrices accumulated independently; perturbed rows for the error path")
+def c17(R):
     for t, N, A, E, ns, r, p in mdps(8 if TH else 4):
         paa = bool(t % 2); prob = Tab(ns, r, p, prob_as_array=paa)
         inp = desc(N, A, E, prob_as_array=paa, **tables(ns, r, p)); R.case((N, A, E, paa), {x: inp[x] for x in ("N", "A", "E")})
@@ -248,5 +248,4 @@ def c17():
         except ValueError: R.fail("c17.tolerance", "deviation 5e-5 < 1e-4 rejected", dict(inp, bad_pair=[s_bad, a_bad]))
     return R
 
-FN = {"c02": c02, "c08": c08, "c01": c01, "c04": c04, "c05": c05, "c06": c06, "c07": c07, "c17": c17}
-FN[a.prop]().write(a.out)
+globals()[a.prop + "_report"]().run(globals()[a.prop]).write(a.out)
